@@ -5,7 +5,13 @@
 //vp:assume absolute bucket counts are non-negative (valid histograms)
 package chunkenc
 
-import "github.com/prometheus/prometheus/model/histogram"
+import (
+	"math"
+
+	"github.com/prometheus/prometheus/model/histogram"
+)
+
+func vpXBits(f float64) uint64 { return math.Float64bits(f) }
 
 // vpXLayout enumerates a span layout through the shape and returns it with the list of bucket indexes it denotes.
 func vpXLayout(name string) ([]histogram.Span, []int) {
@@ -220,6 +226,92 @@ func vpH_C11_spans_bothways() {
 			vpAssert(newAf[k] == aAbs[i], "bucket of a keeps its count (absolute values)")
 		} else {
 			vpAssert(newAf[k] == 0, "inserted bucket of a is empty (absolute values)")
+		}
+	}
+	vpReach("reconciled")
+}
+
+// Float twin of the counter reconciliation (expandFloatSpansAndBuckets): same statement over absolute float counts.
+func vpH_C11_spans_reconcile_float() {
+	a, aIdx := vpXLayout("a")
+	b, bIdx := vpXLayout("b")
+	nonNeg := func() float64 {
+		f := vpFloat64()
+		vpAssume(vpAnd(f == f, f >= 0))
+		return f
+	}
+	av := make([]xorValue, len(aIdx))
+	aAbs := make([]float64, len(aIdx))
+	bv := make([]float64, len(bIdx))
+	for i := range av {
+		aAbs[i] = nonNeg()
+		av[i].value = aAbs[i]
+	}
+	for i := range bv {
+		bv[i] = nonNeg()
+	}
+	fwd, bwd, ok := expandFloatSpansAndBuckets(a, b, av, bv)
+	vpObserve("ok", ok)
+	if !ok {
+		bad := false
+		for i, idx := range aIdx {
+			j := vpXIndexOf(bIdx, idx)
+			if j < 0 {
+				bad = vpOr(bad, aAbs[i] != 0)
+			} else {
+				bad = vpOr(bad, aAbs[i] > bv[j])
+			}
+		}
+		vpAssert(bad, "refused only when a bucket of a is missing or lower in b")
+		vpReach("refused")
+		return
+	}
+	mIdx := vpXSpanIdxs(adjustForInserts(b, bwd))
+	for _, idx := range aIdx {
+		vpAssert(vpXIndexOf(mIdx, idx) >= 0, "merged layout contains every bucket of a")
+	}
+	for _, idx := range bIdx {
+		vpAssert(vpXIndexOf(mIdx, idx) >= 0, "merged layout contains every bucket of b")
+	}
+	for k, idx := range mIdx {
+		vpAssert(vpXIndexOf(aIdx, idx) >= 0 || vpXIndexOf(bIdx, idx) >= 0, "merged layout contains nothing else")
+		if k > 0 {
+			vpAssert(mIdx[k-1] < idx, "merged layout strictly increasing")
+		}
+	}
+	nIns := func(ins []Insert) int {
+		n := 0
+		for _, in := range ins {
+			n += in.num
+		}
+		return n
+	}
+	vpAssert(len(aAbs)+nIns(fwd) == len(mIdx), "forward inserts fill a up to the merged layout")
+	vpAssert(len(bv)+nIns(bwd) == len(mIdx), "backward inserts fill b up to the merged layout")
+	if len(aAbs)+nIns(fwd) != len(mIdx) || len(bv)+nIns(bwd) != len(mIdx) {
+		return
+	}
+	newA := insert(aAbs, make([]float64, len(mIdx)), fwd, false)
+	newB := insert(bv, make([]float64, len(mIdx)), bwd, false)
+	bits := func(f float64) uint64 { return vpXBits(f) }
+	for k, idx := range mIdx {
+		if i := vpXIndexOf(aIdx, idx); i >= 0 {
+			vpAssert(bits(newA[k]) == bits(aAbs[i]), "bucket of a keeps its count")
+		} else {
+			vpAssert(bits(newA[k]) == 0, "inserted bucket of a is empty")
+		}
+		if j := vpXIndexOf(bIdx, idx); j >= 0 {
+			vpAssert(bits(newB[k]) == bits(bv[j]), "bucket of b keeps its count")
+		} else {
+			vpAssert(bits(newB[k]) == 0, "inserted bucket of b is empty")
+		}
+	}
+	for i, idx := range aIdx {
+		j := vpXIndexOf(bIdx, idx)
+		if j < 0 {
+			vpAssert(aAbs[i] == 0, "a bucket absent from b was empty")
+		} else {
+			vpAssert(aAbs[i] <= bv[j], "no bucket count decreased")
 		}
 	}
 	vpReach("reconciled")
